@@ -5,7 +5,6 @@ open Pcore.Format
 #print axioms C20_unparse_go
 #print axioms C20_total_map
 #print axioms C20_total
-#print axioms C20_total_fails_number_limit
 #print axioms C20_reported
 #print axioms C20_unsupported_iff
 #print axioms C20_unsupported_iff_directive
